@@ -615,7 +615,7 @@ Lemma response_complete_SE gap i c :
   let r := tx_state_response_complete_ex cb g i false c in
   c_fault (snd r) = false /\
   (fst r = ST_OK -> SE gap (snd r) /\ c_out_state (snd r) = RES_IDLE /\ k_read (c_out (snd r)) = k_read (c_out c)) /\
-  (fst r = ST_DATA_OTHER -> SE gap (snd r) /\ c_out_state (snd r) = RES_FINALIZE /\ hook_out (snd r) = None /\ k_read (c_out (snd r)) = k_read (c_out c) /\ k_len (c_out (snd r)) = k_len (c_out c)).
+  (fst r = ST_DATA_OTHER -> SE gap (snd r) /\ c_out_state (snd r) = RES_IDLE /\ hook_out (snd r) = None /\ k_read (c_out (snd r)) = k_read (c_out c) /\ k_len (c_out (snd r)) = k_len (c_out c)).
 Proof.
   intros H Ei Es. cbv zeta. unfold tx_state_response_complete_ex.
   assert (L : live c i) by (eapply SE_out_live; eassumption).
@@ -652,39 +652,54 @@ Proof.
   assert (Ln1 : k_len (c_out c1) = k_len (c_out c)).
   { pose proof (skel_cur_out _ _ (proj1 R1)) as Q. unfold cur_core in Q. congruence. }
   assert (S1 : c_out_state c1 = RES_FINALIZE) by (rewrite (skel_out_state _ _ (proj1 R1)); exact Es).
-  destruct (negb false && _).
-  { cbn [fst snd]. split; [exact F1|split; [discriminate|intros _; split; [exact H1|split; [exact S1|split; [exact Hh|split; assumption]]]]]. }
-  destruct (negb false && c_out_data_other_at_tx_end c1).
-  { cbn [fst snd]. split; [exact F1|split; [discriminate|intros _]].
-    assert (H1' : SE gap (c1 <| c_out_data_other_at_tx_end := false |>)).
-    { destruct H1 as [A1 [W1 W2 W3 W4 W5 W6] [[T1 T2 T3 T4] [B1 B2 B3]] A4 A5 A6 A7]. constructor; try assumption; [constructor; assumption|split; constructor; assumption]. }
-    split; [exact H1'|split; [exact S1|split; [exact Hh|split; assumption]]]. }
-  assert (E1 : c_out_tx c1 = Some i) by (rewrite (frR_out_tx _ _ _ R1); exact Ei).
+  assert (W : forall ret c', (ret = ST_OK \/ ret = ST_DATA_OTHER) ->
+            SE gap c' -> hook_out c' = None -> c_fault c' = false -> live c' i -> c_out_state c' = RES_FINALIZE ->
+            k_read (c_out c') = k_read (c_out c) -> k_len (c_out c') = k_len (c_out c) ->
+            let r := match tx_finalize cb g i c' with
+                     | (ST_OK, c2) => (ret, c2 <| c_out_tx := None |> <| c_out_state := RES_IDLE |>)
+                     | r => r end in
+            c_fault (snd r) = false /\
+            (fst r = ST_OK -> SE gap (snd r) /\ c_out_state (snd r) = RES_IDLE /\ k_read (c_out (snd r)) = k_read (c_out c)) /\
+            (fst r = ST_DATA_OTHER -> SE gap (snd r) /\ c_out_state (snd r) = RES_IDLE /\ hook_out (snd r) = None /\ k_read (c_out (snd r)) = k_read (c_out c) /\ k_len (c_out (snd r)) = k_len (c_out c))).
+  { clear H1 Hh F1 R1 Hok Rd1 Ln1 S1. intros ret c' Hret H1 Hh F1 L1 S1 Rd1 Ln1. cbv zeta.
+    destruct (tx_finalize_safe cb g cb_nodestroy i c' F1 L1) as (F2 & Fx & Tin & Tout & Pi & Po & Si).
+    pose proof (tx_finalize_rc i c') as Hrc2.
+    destruct (tx_finalize cb g i c') as [rc2 c2]. cbn [fst snd] in *.
+    destruct rc2; try (split; [exact F2|split; discriminate]); try (exfalso; destruct Hrc2 as [Q|[Q|Q]]; discriminate Q).
+    destruct Fx as (Sk & Hi & Ho & Ri & Ro).
+    pose proof H1 as [A1 A2 [Ti To] A4 A5 A6 A7].
+    assert (Hh2 : hook_out c2 = None) by (destruct Ho as [Q|Q]; congruence).
+    assert (Rd2 : k_read (c_out (c2 <| c_out_tx := None |> <| c_out_state := RES_IDLE |>)) = k_read (c_out c)).
+    { cbn. pose proof (cur_core_read _ _ (nost_cur_out _ _ Sk)) as Q. congruence. }
+    assert (Ln2 : k_len (c_out (c2 <| c_out_tx := None |> <| c_out_state := RES_IDLE |>)) = k_len (c_out c)).
+    { cbn. pose proof (nost_cur_out _ _ Sk) as Q. unfold cur_core in Q. congruence. }
+    assert (G : SE gap (c2 <| c_out_tx := None |> <| c_out_state := RES_IDLE |>)).
+    { constructor.
+      - exact F2.
+      - assert (W2 : OW gap c2).
+        { eapply OW_frame; [exact A2| |exact Ho|exact Ro]. unfold ogeo. rewrite (nost_cur_out _ _ Sk), (nost_out_state _ _ Sk), (nost_out_status _ _ Sk). reflexivity. }
+        destruct W2 as [W1 W2 W3 W4 W5 W6]. apply (mkOW gap); try assumption.
+        right. destruct W3 as [[Q _]|Q]; [|exact Q]. rewrite (nost_out_state _ _ Sk), S1 in Q. discriminate.
+      - split.
+        + destruct (Tin Ti) as [T1 T2 T3 T4]. constructor; assumption.
+        + constructor; cbn; try exact I; try reflexivity. intros U. unfold armed, hook_out in *. cbn in U. congruence.
+      - pose proof (nost_core _ _ Sk) as C. unfold rq_core in C. injection C as C1 C2 C3 C4 C5 C6 C7 C8 C9 C10.
+        unfold rq_inv in *. cbn. rewrite Si, C9, C10. exact A4.
+      - assert (K2 : in_clean c2) by (eapply in_clean_frame; [exact A5|exact (nost_cur_in _ _ Sk)|exact Hi|exact Ri]). exact K2.
+      - intros Q. cbn in Q. contradiction.
+      - cbn. apply skel_in_status in Sk. cbn in Sk. rewrite Sk. exact A7. }
+    split; [exact F2|].
+    destruct Hret as [-> | ->]; (split; [intros Q|intros Q]); try discriminate Q.
+    + split; [exact G|split; [reflexivity|exact Rd2]].
+    + split; [exact G|split; [reflexivity|split; [exact Hh2|split; [exact Rd2|exact Ln2]]]]. }
   pose proof (frR_live _ _ _ i R1 L) as L1.
-  destruct (tx_finalize_safe cb g cb_nodestroy i c1 F1 L1) as (F2 & Fx & Tin & Tout & Pi & Po & Si).
-  pose proof (tx_finalize_rc i c1) as Hrc2.
-  destruct (tx_finalize cb g i c1) as [rc2 c2]. cbn [fst snd] in *.
-  destruct rc2; try (split; [exact F2|split; discriminate]); try (exfalso; destruct Hrc2 as [Q|[Q|Q]]; discriminate Q).
-  split; [exact F2|split; [intros _|discriminate]].
-  destruct Fx as (Sk & Hi & Ho & Ri & Ro).
-  pose proof H1 as [A1 A2 [Ti To] A4 A5 A6 A7].
-  assert (Hh2 : hook_out c2 = None) by (destruct Ho as [Q|Q]; congruence).
-  split; [|split; [reflexivity|]].
-  2: { cbn. pose proof (cur_core_read _ _ (nost_cur_out _ _ Sk)) as Q. congruence. }
-  constructor.
-  - exact F2.
-  - assert (W2 : OW gap c2).
-    { eapply OW_frame; [exact A2| |exact Ho|exact Ro]. unfold ogeo. rewrite (nost_cur_out _ _ Sk), (nost_out_state _ _ Sk), (nost_out_status _ _ Sk). reflexivity. }
-    destruct W2 as [W1 W2 W3 W4 W5 W6]. apply (mkOW gap); try assumption.
-    right. destruct W3 as [[Q _]|Q]; [|exact Q]. rewrite (nost_out_state _ _ Sk), S1 in Q. discriminate.
-  - split.
-    + destruct (Tin Ti) as [T1 T2 T3 T4]. constructor; assumption.
-    + constructor; cbn; try exact I; try reflexivity. intros U. unfold armed, hook_out in *. cbn in U. congruence.
-  - pose proof (nost_core _ _ Sk) as C. unfold rq_core in C. injection C as C1 C2 C3 C4 C5 C6 C7 C8 C9 C10.
-    unfold rq_inv in *. cbn. rewrite Si, C9, C10. exact A4.
-  - assert (K2 : in_clean c2) by (eapply in_clean_frame; [exact A5|exact (nost_cur_in _ _ Sk)|exact Hi|exact Ri]). exact K2.
-  - intros Q. cbn in Q. contradiction.
-  - cbn. apply skel_in_status in Sk. cbn in Sk. rewrite Sk. exact A7.
+  destruct (negb false && _).
+  { apply W; try assumption. right; reflexivity. }
+  destruct (negb false && c_out_data_other_at_tx_end c1).
+  { assert (H1' : SE gap (c1 <| c_out_data_other_at_tx_end := false |>)).
+    { destruct H1 as [A1 [W1 W2 W3 W4 W5 W6] [[T1 T2 T3 T4] [B1 B2 B3]] A4 A5 A6 A7]. constructor; try assumption; [constructor; assumption|split; constructor; assumption]. }
+    apply W; try assumption. right; reflexivity. }
+  apply W; try assumption. left; reflexivity.
 Qed.
 End ResTx.
 
@@ -1669,9 +1684,16 @@ Proof.
     cbn [fst] in Q. destruct r1; try exact Q. apply res_receiver_finalize_clear_rc. }
   match goal with |- context [match ?X with (rc0, c0) => _ end] => destruct X as [rc1 c1] end. cbn [fst] in P1.
   destruct rc1; try (left; exact P1).
-  destruct (negb false && _); [right; reflexivity|]. destruct (negb false && _); [right; reflexivity|].
-  pose proof (tx_finalize_rc cb g i c1) as Q. destruct (tx_finalize cb g i c1) as [rc2 c2]. cbn [fst] in Q.
-  destruct rc2; left; exact Q.
+  assert (W : forall ret c', (ret = ST_OK \/ ret = ST_DATA_OTHER) ->
+            let r := match tx_finalize cb g i c' with
+                     | (ST_OK, c2) => (ret, c2 <| c_out_tx := None |> <| c_out_state := RES_IDLE |>)
+                     | r => r end in
+            rq_hookrc (fst r) \/ fst r = ST_DATA_OTHER).
+  { intros ret c' Hret. cbv zeta.
+    pose proof (tx_finalize_rc cb g i c') as Q. destruct (tx_finalize cb g i c') as [rc2 c2]. cbn [fst] in Q.
+    destruct rc2; cbn [fst]; try (left; exact Q). destruct Hret as [-> | ->]; [left; exact Q|right; reflexivity]. }
+  destruct (negb false && _); [apply W; right; reflexivity|]. destruct (negb false && _); [apply W; right; reflexivity|].
+  apply W; left; reflexivity.
 Qed.
 
 (* htp_tx_state_response_complete_ex applied to out_tx in RES_FINALIZE (also the gap case) *)
